@@ -226,7 +226,9 @@ pub fn roundtrip_out(d: &DecodedMap) -> Value {
         let b2 = match to_bytes(&d2) { Ok(b) => b, Err(e) => return json!({"k": "err", "stage": "write2", "e": e}) };
         let d3 = match sourcemap::decode_slice(&b2) { Ok(x) => x, Err(e) => return json!({"k": "err", "stage": "read2", "e": format!("{:?}", e)}) };
         let b3 = match to_bytes(&d3) { Ok(b) => b, Err(e) => return json!({"k": "err", "stage": "write3", "e": e}) };
-        json!({"k": "ok", "p2": proj_map(&d2), "same": b2 == b3, "detect": sourcemap::is_sourcemap_slice(&b1)})
+        // the reader entry point must read the serialised form as the slice entry point does
+        let via_reader = match sourcemap::decode(&b1[..]) { Ok(x) => proj_map(&x) == proj_map(&d2), Err(_) => false };
+        json!({"k": "ok", "p2": proj_map(&d2), "same": b2 == b3, "reader_same": via_reader, "detect": sourcemap::is_sourcemap_slice(&b1)})
     })
 }
 /// C03: the serialised form, parsed by serde_json::Value into an abstract document
